@@ -6,7 +6,7 @@
    Descriptors  D:<mt>:<dg>:<size>:<ann>:<at>:<extra>   (hex fields, "-" = empty)
    Annotations  -  |  k=v;k=v
    Option       N | <desc>          List  N | L,<desc>,<desc>...
-   Store        S,<mt>:<dg>:<size>[:n],...   (n = named file of a file store)                                          *)
+   Store        S,<mt>:<dg>:<size>[:<name>],...   (name = file name in a file store)                                          *)
 let z_of_int (i : int) : z =
   if i = 0 then Z0 else if i > 0 then Zpos (pos_of_int i) else Zneg (pos_of_int (-i))
 let int_of_z (x : z) : int =
@@ -57,8 +57,8 @@ let store_of s =
   match split ',' s with
   | "S" :: es ->
     List.map (fun e -> match split ':' e with
-        | [mt; dg; sz] -> { e_mt = str_of_hex mt; e_dg = str_of_hex dg; e_sz = z_of_int (int_of_string sz); e_bytes = []; e_named = false }
-        | [mt; dg; sz; "n"] -> { e_mt = str_of_hex mt; e_dg = str_of_hex dg; e_sz = z_of_int (int_of_string sz); e_bytes = []; e_named = true }
+        | [mt; dg; sz] -> { e_mt = str_of_hex mt; e_dg = str_of_hex dg; e_sz = z_of_int (int_of_string sz); e_bytes = []; e_name = [] }
+        | [mt; dg; sz; nm] -> { e_mt = str_of_hex mt; e_dg = str_of_hex dg; e_sz = z_of_int (int_of_string sz); e_bytes = []; e_name = str_of_hex nm }
         | _ -> failwith "entry") es
   | _ -> failwith "store"
 
@@ -78,7 +78,7 @@ let show_err e =
   | EInvalidMediaType -> "invalid-media-type"
   | EMissingArtifactType -> "missing-artifact-type"
   | EInvalidDateTime -> "invalid-datetime"
-  | EInjected -> "injected"
+  | EInjected -> "storage-error"
 
 let fn_of s =
   match s with
